@@ -72,7 +72,18 @@ def layout(name):
 
 
 def rand_val(r, s, integral=False):
+    """One value for the slot (numerator in eighths).  A slot marked "neg" (model arguments of a case
+    that allows negative values) takes values in [-31, 31] \\ {-1}: the probe's positional code stays
+    injective (digit range below 64) and -1 stays the marker of a value that is not a multiple of 1/8."""
     def one():
+        if s.get("neg"):
+            if integral:
+                v = 8 * r.randrange(1, 4)
+            else:
+                v = r.randrange(max(1, s["lo"]), min(31, s["hi"]) + 1)
+            if r.random() < 0.4:
+                v = -v
+            return -2 if v == -1 else v
         if integral and s["hi"] >= 16:
             return 8 * r.randrange(max(1, (s["lo"] + 7) // 8), s["hi"] // 8 + 1)
         return r.randrange(s["lo"], s["hi"] + 1)
@@ -84,17 +95,40 @@ def rand_val(r, s, integral=False):
     return [one() for _ in range(s["vlen"])]
 
 
-def gen_values(r, s):
-    """A list of 1..4 values for the slot, and how it is written (literal list / numpy expression)."""
-    n = r.choice([1, 1, 2, 2, 3, 3, 4])
+def _order(r, vals, style):
+    """Impose the requested order on a value list: "desc" = descending, "unsorted" = neither ascending nor
+    (where three distinct values allow it) descending, None = as drawn."""
+    key = (lambda v: tuple(v)) if vals and isinstance(vals[0], list) else (lambda v: v)
+    if style == "desc":
+        return sorted(vals, key=key, reverse=True)
+    if style == "unsorted" and len({json.dumps(v) for v in vals}) >= 2:
+        asc = sorted(vals, key=key)
+        for _ in range(20):
+            r.shuffle(vals)
+            if vals != asc and (vals != asc[::-1] or len(vals) < 3):
+                break
+        if vals == asc:
+            vals = asc[::-1]
+    return vals
+
+
+def gen_values(r, s, style=None, nodup=False):
+    """A list of 1..4 values for the slot, and how it is written (literal list / numpy expression).
+    style: None | "desc" | "unsorted" (see _order); nodup: no value twice."""
+    n = r.choice([1, 1, 2, 2, 3, 3, 4]) if style is None else r.choice([2, 3, 3, 4])
     p = dict(kind="lit")
     if s["vlen"] > 0:
         n = min(n, 3)
-        p["values"] = [rand_val(r, s) for _ in range(n)]
-        if r.random() < 0.25 and n > 1:
-            p["values"][r.randrange(1, n)] = list(p["values"][0])      # duplicate vector
+        vals = [rand_val(r, s) for _ in range(n)]
+        if r.random() < 0.25 and n > 1 and not nodup:
+            vals[r.randrange(1, n)] = list(vals[0])      # duplicate vector
+        if nodup:
+            vals = [list(t) for t in dict.fromkeys(tuple(v) for v in vals)]
+        p["values"] = _order(r, vals, style)
         return p
     how = r.choice(["list", "list", "ints", "array", "arange", "linspace"])
+    if s.get("neg") and how in ("arange", "linspace"):
+        how = "array"
     if how in ("arange", "linspace"):
         unit = 8 if how == "arange" else r.choice([1, 2, 4])
         step = unit * r.randrange(1, 3)
@@ -107,15 +141,25 @@ def gen_values(r, s):
         else:
             start = unit * r.randrange(lo_k, hi_k + 1)
             vals = [start + i * step for i in range(n)]
-            p["values"] = vals
-            if how == "arange":
+            if style in ("desc", "unsorted") and n > 1:
+                # the same numbers written as a descending numpy expression
+                vals = vals[::-1]
+                if how == "arange":
+                    p["expr"] = f"numpy.arange({vals[0] // 8}, {start // 8 - 1}, {-(step // 8)})"
+                else:
+                    p["expr"] = f"numpy.linspace({vals[0] / 8.0!r}, {vals[-1] / 8.0!r}, {n})"
+            elif how == "arange":
                 p["expr"] = f"numpy.arange({start // 8}, {(start + n * step) // 8}, {step // 8})"
             else:
                 p["expr"] = f"numpy.linspace({start / 8.0!r}, {vals[-1] / 8.0!r}, {n})"
+            p["values"] = vals
             return p
     vals = [rand_val(r, s, integral=(how == "ints")) for _ in range(n)]
-    if n > 1 and r.random() < 0.3:
+    if n > 1 and r.random() < 0.3 and not nodup:
         vals[r.randrange(1, n)] = vals[0]                                # duplicate value
+    if nodup:
+        vals = list(dict.fromkeys(vals))
+    vals = _order(r, vals, style)
     p["values"] = vals
     if how == "ints":
         p["ints"] = True
@@ -127,15 +171,27 @@ def gen_values(r, s):
     return p
 
 
-def gen_case(r, mode=None, lay=None, kind="valid"):
+def gen_case(r, mode=None, lay=None, kind="valid", dask=False, style=None, nodup=None, neg=None, nparams=None):
+    """dask: run on the dask path; style: order of the value lists (None | "desc" | "unsorted" | "mixed" = drawn
+    per parameter); nodup: no value twice in a list; neg: model arguments may be negative."""
     mode = mode or r.choice(["product", "product", "sequential", "sequential", "custom", "custom"])
     lay = lay or r.choices(["L1", "L3", "L2", "L4", "L5"], [8, 3, 1, 1, 1])[0]
     probes, slots = layout(lay)
+    if neg is None:
+        neg = r.random() < 0.3
+    if nodup is None:
+        nodup = dask and r.random() < 0.85
+    for s in slots:
+        if neg and s["arg"] is not None:
+            s["neg"] = True
     for s in slots:
         s["default"] = rand_val(r, s)
         if s["arg"] is not None:
             probes[s["probe"]]["args"][s["arg"]] = s["default"]
-    nparams = r.choice([1, 2, 2, 3, 3, 4])
+    if nparams is None:
+        nparams = r.choice([1, 2, 2, 3, 3, 4])
+        if dask and mode == "sequential" and r.random() < 0.6:
+            nparams = 1             # the dask path of sequential mode only does what was asked with one parameter
     pool = list(range(len(slots)))
     if mode == "product":
         # keep the product small: at most two long lists
@@ -157,7 +213,7 @@ def gen_case(r, mode=None, lay=None, kind="valid"):
         en = r.random() < 0.78
         if mode == "custom":
             if s["vlen"] == 0:
-                if s["arg"] is not None and r.random() < 0.15:
+                if s["arg"] is not None and r.random() < (0.06 if dask else 0.15):
                     p = dict(kind="unders", n=1)
                 else:
                     p = dict(kind="under")
@@ -166,7 +222,8 @@ def gen_case(r, mode=None, lay=None, kind="valid"):
             if kind == "literal_in_custom" and r.random() < 0.5:
                 p = gen_values(r, s)
         else:
-            p = gen_values(r, s)
+            st = r.choice([None, "desc", "unsorted", "unsorted"]) if style == "mixed" else style
+            p = gen_values(r, s, style=st, nodup=nodup)
             if kind == "placeholder_in_noncustom" and r.random() < 0.5:
                 p = dict(kind="under") if s["vlen"] == 0 else dict(kind="unders", n=s["vlen"])
         p.update(key=s["key"], enabled=en, slot=i)
@@ -179,16 +236,20 @@ def gen_case(r, mode=None, lay=None, kind="valid"):
         params.append(p)
     if not any(p["enabled"] for p in params) or r.random() < 0.5:
         params[r.randrange(len(params))]["enabled"] = True
+    if dask and mode == "sequential" and nparams == 1:
+        for p in params[1:]:
+            p["enabled"] = False
+        params[0]["enabled"] = True
     if mode == "product":
         # bound the number of runs
         tot = 1
         for p in params:
             if p["enabled"] and p["kind"] == "lit":
-                while tot * len(p["values"]) > 24 and len(p["values"]) > 1:
+                while tot * len(p["values"]) > (12 if dask else 24) and len(p["values"]) > 1:
                     p["values"] = p["values"][:-1]
                     p.pop("expr", None)
                 tot *= len(p["values"])
-    case = dict(mode=mode, layout=lay, probes=probes, params=params,
+    case = dict(mode=mode, layout=lay, probes=probes, params=params, dask=bool(dask),
                 slots=[dict(key=s["key"], default=s["default"]) for s in slots], table=[], range=None, file="npy")
     if mode == "custom":
         widths = []
@@ -201,6 +262,8 @@ def gen_case(r, mode=None, lay=None, kind="valid"):
         total = sum(widths)
         nrows = r.randrange(1, 7)
         extra_l = r.choice([0, 0, 0, 1, 2])
+        if dask and r.random() < 0.8:
+            extra_l = 0             # the dask path addresses the selected columns by the labels 0,1,..
         extra_r = r.choice([0, 0, 1])
         ncols = total
         if kind == "width_mismatch":
@@ -214,6 +277,8 @@ def gen_case(r, mode=None, lay=None, kind="valid"):
                 s = cols[j] if j < len(cols) else dict(lo=1, hi=8, vlen=0, key="")
                 if s["key"] == ADC:
                     row.append(8 * (1 + (j % 2) * 3) + r.randrange(0, 8))
+                elif s.get("neg"):
+                    row.append(rand_val(r, dict(s, vlen=0)))
                 else:
                     row.append(r.randrange(s["lo"], s["hi"] + 1))
             row += [r.randrange(1, 8) for _ in range(extra_r)]
@@ -227,12 +292,40 @@ def gen_case(r, mode=None, lay=None, kind="valid"):
 
 
 def canon(case):
-    return json.dumps({k: case[k] for k in ("mode", "layout", "params", "slots", "table", "range")}, sort_keys=True)
+    return json.dumps({k: case.get(k) for k in ("mode", "layout", "params", "slots", "table", "range", "dask")},
+                      sort_keys=True)
 
 
-def gen_cases(ctx: Ctx, budget: int):
+CORPUS = core.VERIF / "harness" / "corpus" / "C05"
+
+
+def load_corpus():
+    """Minimised past failures (formerly failing inputs of repaired defects, inputs that exposed seeded changes)."""
+    out = []
+    if CORPUS.is_dir():
+        for f in sorted(CORPUS.glob("*.json")):
+            data = json.loads(f.read_text())
+            for c in (data if isinstance(data, list) else [data]):
+                c.setdefault("dask", False)
+                c["corpus"] = f.name
+                out.append(c)
+    return out
+
+
+def gen_dask_case(r, mode=None):
+    """A case for the dask path, aimed at the labelling clause: lists that are not ascending, descending lists,
+    negative and float values, vector-valued parameters; mostly without the inputs of the known defects of that path
+    (a value twice in a product list, >= 2 sequential parameters, a one-element placeholder list, a column range not
+    starting at 0, colliding names) -- those are still generated, at a low rate, and always in gen_cases' fixed list."""
+    mode = mode or r.choice(["product", "product", "product", "sequential", "custom", "custom"])
+    lay = r.choices(["L1", "L3", "L4", "L2", "L5"], [10, 4, 2, 1, 1])[0]
+    style = r.choice(["unsorted", "unsorted", "desc", "mixed", None])
+    return gen_case(r, mode, lay, dask=True, style=style, neg=r.random() < 0.5)
+
+
+def gen_cases(ctx: Ctx, budget: int, dask_budget: int):
     r = ctx.rng("cases")
-    cases = []
+    cases = load_corpus()
     # adversarial list first (the mutations and the findings the property text names)
     for mode in ("product", "sequential", "custom"):
         for lay in ("L1", "L3", "L2", "L4", "L5"):
@@ -243,6 +336,10 @@ def gen_cases(ctx: Ctx, budget: int):
     cases.append(gen_case(r, "custom", "L1", kind="literal_in_custom"))
     cases.append(gen_case(r, "product", "L1", kind="placeholder_in_noncustom"))
     cases.append(gen_case(r, "sequential", "L1", kind="placeholder_in_noncustom"))
+    # unsorted / descending lists and negative values on the non-dask path too
+    for mode in ("product", "sequential"):
+        for style in ("unsorted", "desc"):
+            cases.append(gen_case(r, mode, "L1", style=style, neg=True))
     while len(cases) < budget:
         k = r.random()
         kind = "valid"
@@ -254,11 +351,37 @@ def gen_cases(ctx: Ctx, budget: int):
             kind = "placeholder_in_noncustom"
         elif k < 0.10:
             kind = "no_range"
-        c = gen_case(r, kind=kind)
+        style = r.choice([None, None, "mixed", "unsorted", "desc"])
+        c = gen_case(r, kind=kind, style=style)
         if kind in ("width_mismatch", "literal_in_custom", "no_range"):
             c = gen_case(r, "custom", kind=kind)
         cases.append(c)
-    return cases
+    # ---- the dask path (with_dask=True, synchronous scheduler)
+    rd = ctx.rng("dask")
+    dcases = []
+    for mode in ("product", "sequential", "custom"):
+        for lay in ("L1", "L3", "L4"):
+            for style in ("unsorted", "desc"):
+                dcases.append(gen_case(rd, mode, lay, dask=True, style=style, nodup=True, neg=(style == "desc"),
+                                       nparams=1 if mode == "sequential" else None))
+        for lay in ("L2", "L5"):                       # name collisions / undefined names on the dask path
+            dcases.append(gen_case(rd, mode, lay, dask=True, style="unsorted", nodup=True))
+    dcases.append(gen_case(rd, "product", "L1", dask=True, nodup=False, style=None, nparams=2))
+    dcases.append(gen_case(rd, "sequential", "L1", dask=True, style="unsorted", nparams=3))
+    for kind in ("width_mismatch", "no_range", "literal_in_custom"):
+        dcases.append(gen_case(rd, "custom", "L1", kind=kind, dask=True))
+    for mode in ("product", "sequential"):
+        dcases.append(gen_case(rd, mode, "L1", kind="placeholder_in_noncustom", dask=True))
+    while len(dcases) < dask_budget:
+        k = rd.random()
+        if k < 0.04:
+            dcases.append(gen_case(rd, "custom", kind=rd.choice(["width_mismatch", "literal_in_custom", "no_range"]),
+                                   dask=True))
+        elif k < 0.06:
+            dcases.append(gen_case(rd, rd.choice(["product", "sequential"]), kind="placeholder_in_noncustom", dask=True))
+        else:
+            dcases.append(gen_dask_case(rd))
+    return cases + dcases
 
 
 # ------------------------------------------------------------------------------------------ Coq emission
@@ -295,7 +418,8 @@ def emit_case(c, o) -> str:
     slots = core.clist(f"({core.cstr(s['key'])}, {cpval(s['default'])})" for s in c["slots"])
     table = core.clist(core.clist(core.cz(int(x)) for x in row) for row in c["table"])
     rng = "None" if not c["range"] else f"(Some ({c['range'][0]}, {c['range'][1]}))"
-    return (f"(mkCase {mode} {core.clist(cparam(p) for p in c['params'])}\n    {slots}\n    {table} {rng}\n    {obs})")
+    return (f"(mkCase {mode} {core.clist(cparam(p) for p in c['params'])}\n    {slots}\n    {table} {rng} "
+            f"{core.cbool(bool(c.get('dask')))}\n    {obs})")
 
 
 def emit_file(pairs) -> str:
@@ -318,8 +442,20 @@ def _short(key):
     return "readout_time" if key == "observation.readout.times" else key.split(".")[-1]
 
 
-def classify(c, o):
-    """Python-side classification of a case that Coq judged to violate the specification (signature only)."""
+def _has_dup(p):
+    vals = [json.dumps(v) for v in p.get("values", [])]
+    return len(set(vals)) < len(vals)
+
+
+def classify(c, o, explained=True):
+    """Python-side classification of a case that Coq judged to violate the specification (signature only).
+    explained = the as-coded model (which contains the recorded defects of the unchanged tree) reproduces what the
+    implementation did; a violation the model does not reproduce is never attributed to a recorded defect."""
+    if not explained:
+        if not o["raised"]:
+            return "runs_or_labels_differ"
+        return "raises_on_valid_request" if _accepts(c) else "unclassified"
+    dask = bool(c.get("dask"))
     en = [p for p in c["params"] if p["enabled"]]
     keys = list(dict.fromkeys(p["key"] for p in en))
     shorts = [_short(k) for k in keys]
@@ -332,37 +468,50 @@ def classify(c, o):
             vlens.add(p["n"])
         elif p["kind"] == "lit" and p["values"] and isinstance(p["values"][0], list):
             vlens.add(len(p["values"][0]))
-    if c["mode"] == "custom":
-        accepts = all(p["kind"] != "lit" for p in en)
-        total = sum(1 if p["kind"] == "under" else p.get("n", 0) for p in en if p["kind"] != "lit")
-        ncols = (c["range"][1] + 1 - c["range"][0]) if c["range"] else (len(c["table"][0]) if c["table"] else 0)
-        if c["range"] and c["table"]:
-            ncols = len(c["table"][0][c["range"][0]:c["range"][1] + 1])
-        accepts = accepts and total != 0 and total == ncols
-    else:
-        accepts = all(p["kind"] == "lit" for p in en)
-    if not accepts:
+    if not _accepts(c):
         return "accepts_invalid_request" if not o["raised"] else "unclassified"
     if o["raised"]:
         if c["mode"] == "custom" and not c["range"]:
             return "custom_without_column_range_raises"
         if undefined:
             return "dim_name_undefined_raises"
-        if collide and c["mode"] == "product":
+        if collide and (c["mode"] == "product" or dask):
             return "dim_name_collision_raises"
-        if c["mode"] != "product" and len(vlens) > 1:
+        if dask and c["mode"] == "product" and any(_has_dup(p) for p in en):
+            return "dask_product_duplicate_values_raises"
+        if dask and c["mode"] == "custom" and c["range"][0] > 0:
+            return "dask_custom_column_offset_raises"
+        if c["mode"] != "product" and len(vlens) > 1 and not dask:
             return "vector_lengths_differ_raises"
         return "raises_on_valid_request"
     if collide and c["mode"] != "product":
         return "dim_name_collision_silent"
+    if dask and c["mode"] == "sequential" and len(en) >= 2:
+        return "dask_sequential_zips"
+    if dask and c["mode"] == "custom" and any(p["kind"] == "unders" and p["n"] == 1 for p in en):
+        return "dask_custom_one_element_list_scalar"
     return "runs_or_labels_differ"
 
 
-def to_violation(c, o) -> Violation:
-    clause = classify(c, o)
-    sig = dict(clause=clause, mode=c["mode"])
+def _accepts(c) -> bool:
+    """Is the request well-formed (python mirror of spec_accepts, used for the signature only)?"""
     en = [p for p in c["params"] if p["enabled"]]
-    what = (f"{c['mode']} observation over {[p['key'] for p in en]}: {clause}"
+    if c["mode"] == "custom":
+        accepts = all(p["kind"] != "lit" for p in en)
+        total = sum(1 if p["kind"] == "under" else p.get("n", 0) for p in en if p["kind"] != "lit")
+        ncols = (c["range"][1] + 1 - c["range"][0]) if c["range"] else (len(c["table"][0]) if c["table"] else 0)
+        if c["range"] and c["table"]:
+            ncols = len(c["table"][0][c["range"][0]:c["range"][1] + 1])
+        return accepts and total != 0 and total == ncols
+    return all(p["kind"] == "lit" for p in en)
+
+
+def to_violation(c, o, explained=True) -> Violation:
+    clause = classify(c, o, explained)
+    sig = dict(clause=clause, mode=c["mode"], dask=bool(c.get("dask")))
+    en = [p for p in c["params"] if p["enabled"]]
+    what = (f"{c['mode']} observation{' (with_dask=True)' if c.get('dask') else ''} over "
+            f"{[p['key'] for p in en]}: {clause}"
             + (f" ({o['raised']}: {o.get('msg', '')[:120]})" if o.get("raised") else ""))
     return Violation(clause=clause, case=c, observed=dict(raised=o["raised"], runs=o["runs"], result=o["result"][:40]),
                      expected="exactly the requested runs in order, each found under its own labels with its own data "
@@ -410,7 +559,7 @@ def correspondence(ctx: Ctx, cases, tag="c"):
     for c, o in pairs:
         ctx.count("evaluations", max(1, len(o["runs"])))
         ctx.count("observations")
-        ctx.dist("mode", c["mode"])
+        ctx.dist("mode", c["mode"] + ("/dask" if c.get("dask") else ""))
         ctx.dist("layout", c["layout"])
         ctx.dist("enabled_params", sum(1 for p in c["params"] if p["enabled"]))
         ctx.dist("runs", len(o["runs"]))
@@ -434,7 +583,7 @@ def run(ctx: Ctx):
         "product/custom requests have distinct enabled keys (a repeated key is only meaningful in sequential mode)",
     ]
     core.proof_leg(ctx, {}, PROP_FILE)
-    cases = gen_cases(ctx, ctx.budget(400, 1500))
+    cases = gen_cases(ctx, ctx.budget(400, 1500), ctx.budget(160, 600))
     mism, viol, pairs = correspondence(ctx, cases)
     distinct = {canon(c) for c, _ in pairs if nontrivial(c)}
     ctx.cov["distinct_nontrivial"] = len(distinct)
@@ -446,9 +595,10 @@ def run(ctx: Ctx):
     for c, o in pairs[:40:9]:
         ctx.sample(dict(mode=c["mode"], params=[{k: p[k] for k in p if k != "slot"} for p in c["params"]],
                         runs=o["runs"][:4], result=o["result"][:2], raised=o["raised"]))
+    unexplained = {id(c) for c, _ in mism}
     for c, o in viol:
-        v = to_violation(c, o)
-        ctx.dist("spec_violation", f"{v.clause}/{c['mode']}")
+        v = to_violation(c, o, explained=id(c) not in unexplained)
+        ctx.dist("spec_violation", f"{v.clause}/{c['mode']}{'/dask' if c.get('dask') else ''}")
         ctx.violations.append(v)
     (ctx.build / "mismatches.json").write_text(json.dumps([dict(case=c, observed=o) for c, o in mism], indent=1))
     for c, o in mism:
@@ -468,8 +618,9 @@ def search(ctx: Ctx):
             for lay in ("L1", "L3"):
                 cases.append(gen_case(r, mode, lay))
     mism, viol, pairs = correspondence(ctx, cases, tag="s")
+    unexplained = {id(c) for c, _ in mism}
     for c, o in viol:
-        ctx.violations.append(to_violation(c, o))
+        ctx.violations.append(to_violation(c, o, explained=id(c) not in unexplained))
     ctx.cov["search_cases"] = len(pairs)
 
 
@@ -480,7 +631,7 @@ def replay(ctx: Ctx, rp: dict) -> int:
         print(rp.get("detail", ""))
         return 1
     obs = core.run_driver(ctx, "c05", [case], workers=1)[0]
-    print("case:", json.dumps({k: case[k] for k in ("mode", "params", "table", "range")})[:1500])
+    print("case:", json.dumps({k: case.get(k) for k in ("mode", "dask", "params", "table", "range")})[:1500])
     print("implementation now returns:", json.dumps(obs)[:1500])
     if "crash" in obs or "driver_error" in obs:
         return 1
